@@ -70,6 +70,16 @@ class P:
             if len(p) <= 1400:
                 dgrams.append((a, p))
         if rng.random() < 0.5:
+            # the N-th occurrence: the SAME datagram 12-20 times in a row, for a decodable one, a partially decodable one (unknown
+            # template next to a good set: records AND a non-fatal error), an unknown-template one and a malformed one
+            (a, tid), (t, o) = rng.choice(list(tpls.items()))
+            good = g.enc_set(tid, g.rand_record(t)[0])
+            kinds = [g.enc_msg([good], seq=11), g.enc_msg([g.enc_set(7777, bytes(12)), good], seq=12),
+                     g.enc_msg([g.enc_set(7777, bytes(16))], seq=13), g.enc_msg([good], seq=14)[:21]]
+            for q in rng.sample(kinds, 2):
+                k = rng.randrange(len(dgrams) + 1)
+                dgrams[k:k] = [(a, q)] * rng.choice([12, 16, 20])
+        if rng.random() < 0.5:
             # pool hygiene: a run of SHORT datagrams that publish nothing (every early exit of the worker), then LONG data
             (a, tid), (t, o) = rng.choice(list(tpls.items()))
             run = []
@@ -99,8 +109,8 @@ class P:
             dgrams[k:k] = [d for d in run if len(d[1]) <= 1400]
         return pre, dgrams
 
-    def case(self, proto, g, rng):
-        workers = rng.choice([1, 1, 2, 4, 16, 64])
+    def case(self, proto, g, rng, repeat_to=None, force_mirror=False):
+        workers = rng.choice([1, 1, 2, 4, 16, 64]) if not force_mirror else rng.choice([2, 4])
         filt = []
         if proto in ("ipfix", "nf9"):
             pre, dgrams = self.flow_case(proto, g, rng, workers)
@@ -142,11 +152,18 @@ class P:
                         run.append((rand_addr(rng), q))
                 k = rng.randrange(len(dgrams) + 1)
                 dgrams[k:k] = [d for d in run if len(d[1]) <= 1400]
+        if repeat_to:
+            # mostly datagrams that publish nothing (the producer queue also holds 1000 only and is not drained either), then the rest
+            if proto == "sflow":
+                quiet = sfgen.gen_datagram(rng, kinds=["unknown", "unknown-enterprise"])[0]
+            else:
+                quiet = g.enc_msg([g.enc_set(7777, bytes(16))])
+            dgrams = [(rand_addr(rng), quiet)] * (repeat_to - min(len(dgrams), 150)) + dgrams[:150]
         maxlen = max([len(p) for _, p in dgrams] + [1])
         udpsize = rng.choice([1500, 1500, maxlen, 9000])
         line = "pipe %s F %s P %s G %s" % (proto, " ".join(map(str, filt)), " ".join("%s %s" % (hx(a), hx(p)) for a, p in pre),
                                            " ".join("%s %s" % (hx(a), hx(p)) for a, p in dgrams))
-        self.cj[line] = {"cmd": "pipeline", "proto": proto, "workers": workers, "udpsize": udpsize, "mirror": rng.random() < 0.3 and proto in ("ipfix", "sflow"),
+        self.cj[line] = {"cmd": "pipeline", "proto": proto, "workers": workers, "udpsize": udpsize, "mirror": (force_mirror or rng.random() < 0.3) and proto in ("ipfix", "sflow"),
                          "ext_elements": [[pen, eid, ty] for (pen, eid), (fid, ty) in sorted(TEST_EXT.items())],
                          "pre": [[a.hex(), p.hex()] for a, p in pre], "dgrams": [[a.hex(), p.hex()] for a, p in dgrams], "filter": filt}
         self.nworkers[line] = workers
@@ -158,6 +175,11 @@ class P:
         for i in range(budget):
             proto = ["ipfix", "nf9", "nf5", "sflow"][i % 4]
             out.append(self.case(proto, gens.get(proto), rng))
+        # mirroring on and MORE datagrams than the mirror queue holds (1000; nothing drains it in the driver): the path taken when
+        # the copy for the mirror cannot be queued must not disturb what is decoded, counted and published
+        for proto in ("ipfix", "sflow"):
+            line = self.case(proto, gens.get(proto), rng, repeat_to=1150, force_mirror=True)
+            out.append(line)
         return out
 
     def run_impl(self, lines):
